@@ -159,7 +159,29 @@ def loop_pairing(ctx):
     push = db.func("runtime.LoopStack._push")
     par = [s_ for s_ in walk_func(push) if isinstance(s_, ast.Assign) and isinstance(s_.targets[0], ast.Attribute) and s_.targets[0].attr == "parent"]
     news = {s_.targets[0].id for s_ in walk_func(push) if isinstance(s_, ast.Assign) and isinstance(s_.targets[0], ast.Name) and isinstance(s_.value, ast.Call) and dotted(s_.value.func) == "LoopContext"}
-    okp = bool(par) and all(src(s_.targets[0].value) in news and src(s_.value) in ("self.stack[-1]", "self._top") and any(isinstance(a_, ast.If) and src(a_.test) == "self.stack" for a_ in facts_ancestors(s_)) for s_ in par)
+    from .common import arms as _arms, guards_of as _guards
+    def _parent_ok(s_):
+        if src(s_.targets[0].value) not in news:
+            return False
+        val = s_.value
+        if isinstance(val, ast.Name):
+            defs_ = [d_ for d_ in walk_func(push) if isinstance(d_, ast.Assign) and isinstance(d_.targets[0], ast.Name) and d_.targets[0].id == val.id]
+            if len(defs_) == 1:
+                val = defs_[0].value
+        for leaf in _arms(val):
+            g_ = _guards(leaf, push)
+            if isinstance(leaf, ast.Constant) and leaf.value is None and val is not s_.value and ("%s is None" % s_.value.id, False) in _guards(s_, push):
+                continue  # the None alternative is excluded by the test the assignment stands under
+            if src(leaf) in ("self.stack[-1]", "self._top"):
+                if ("self.stack", True) not in g_ and ("len(self.stack)", True) not in g_:
+                    return False
+            elif isinstance(leaf, ast.Constant) and leaf.value is None:
+                if ("self.stack", False) not in g_ and ("len(self.stack)", False) not in g_:
+                    return False  # LoopContext starts with parent None: only when there is no enclosing loop
+            else:
+                return False
+        return True
+    okp = bool(par) and all(_parent_ok(s_) for s_ in par)
     ctx.check(okp, "stack.parent", db.where(par[0]) if par else db.where(push), "the parent of a new LoopContext is `%s`, not the innermost enclosing loop (the top of the stack at the time of the push): from the third nesting level on loop.parent names the wrong loop" % (src(par[0].value) if par else None), "parent = top of the stack when not empty")
     app = [c_ for c_ in walk_func(push) if isinstance(c_, ast.Call) and isinstance(c_.func, ast.Attribute) and dotted(c_.func.value) == "self.stack" and c_.func.attr in ("append", "insert", "extend")]
     ctx.check(len(app) == 1 and app[0].func.attr == "append" and src(app[0].args[0]) in news, "stack.push", db.where(push), "the new LoopContext is not appended at the end of the stack", "stack.append(new)")
